@@ -185,6 +185,12 @@ void harness_framing(void)
 #define VP_KF_ONLY 0
 #endif
 	permitted = ref_request_body(F, nf, req.major, req.minor, &ref_len);
+	/* RFC 9110 9.3.2 / 9.3.8: content in a HEAD request "might lead some implementations to reject the
+	 * request and close the connection because of its potential as a request smuggling attack"; a client
+	 * MUST NOT send content in a TRACE request.  Refusing is therefore permitted when a method for which
+	 * evhttp never reads a body announces one; skipping the framing is not. */
+	if (nobody_method && ((permitted & REF_BODY_CHUNKED) || ((permitted & REF_BODY_LENGTH) && ref_len > 0)))
+		permitted |= REF_BODY_REJECT;
 
 	evhttp_get_body(&evcon, &req);
 
@@ -200,7 +206,7 @@ void harness_framing(void)
 		/* completeness: a regular message (exactly one way to frame it) must not be refused */
 		VP_ASSERT(permitted & REF_BODY_REJECT, "C23: regularly framed request rejected");
 		VP_ASSERT(vp_fail_code == EVREQ_HTTP_INVALID_HEADER, "C23: framing error reported as invalid header (400)");
-#if VP_HAS_CL && !VP_HAS_TE && !VP_KF_ONLY
+#if VP_HAS_CL && !VP_KF_ONLY
 		VP_WITNESS("rejected");
 #endif
 	} else if (vp_readbody_calls) {
